@@ -16,11 +16,17 @@ What is modelled (one Lean function per Go function, same case analysis):
   `buildGraph`             graph.go         BuildGraph, including the early `return &Graph{}` when the
                                             configured-name class exists but names another controller
   `targets`                prepare_requests.go  the objects for which an UpdateRequest is issued
+  `referencedSnippets`     snippets_filter.go   processSnippetsFilters + getSnippetsFilterResolverForNamespace
+                                            (`Referenced`), with the position of the resolver call in
+                                            buildHTTPRoute/buildGRPCRoute (`rulesProcessed`)
 
 What is NOT modelled and enters as data attached to a Route (an oracle the theorems quantify over):
   `valid` (L7Route.Valid / L4Route.Valid as decided by rule validation) and `svcs` (the SvcNsName of the
   graph-level BackendRefs). Both are functions of objects that are never "foreign" in the sense of C17
   (the route itself, Services, ReferenceGrants, SnippetsFilters, NginxProxy).
+  For the SnippetsFilter `Referenced` flag: `rulesReached` (the route's hostnames validate and, for a GRPCRoute, HTTP/2 is
+  not disabled: the real `L7Route.Attachable`) and `sfRefs` (the ExtensionRef filters of the route SPEC that pass
+  `validateFilter`) — functions of the route alone.
 
 Go ranges over maps; every result here is a list in input order and is compared as a set with the real
 graph's maps by the correspondence run. Kubernetes object keys are unique per kind; where a theorem needs
@@ -71,6 +77,12 @@ structure Route where
   parents : List PRef
   valid : Bool             -- oracle, see header
   svcs : List NN           -- oracle, see header
+  /-- oracle: the guards between `r.ParentRefs = sectionNameRefs` and `process{HTTP,GRPC}RouteRules` pass
+  (hostnames valid; for a GRPCRoute HTTP/2 not disabled) — the real route's `Attachable` -/
+  rulesReached : Bool
+  /-- the names `resolveExtRefFunc` is called with while the rules are processed: the `ExtensionRef` filters of
+  the route rules that pass `validateFilter` (group `gateway.nginx.org`, kind `SnippetsFilter`, non-empty name) -/
+  sfRefs : List String
   deriving DecidableEq, Repr
 
 /-- a `LocalPolicyTargetReference` -/
@@ -220,6 +232,35 @@ def referencedServices (winner : Option Gw) (routes : List RouteG) : List NN :=
   | some w =>
     (routes.filter (fun r => r.valid && r.parents.any (fun p => decide (p.gw = w.nn)))).flatMap (·.svcs)
 
+/-! ### SnippetsFilters: the `Referenced` flag (snippets_filter.go)
+
+`processSnippetsFilters` turns every SnippetsFilter of the cluster into a graph node with `Referenced = false`;
+the only writer of the flag is the closure returned by `getSnippetsFilterResolverForNamespace(snippetsFilters, ns)`,
+and its only caller is `processRouteRuleFilters`, reached from `buildHTTPRoute`/`buildGRPCRoute` AFTER
+`buildSectionNameRefs` succeeded with at least one parentRef naming one of our Gateways (and the hostnames
+validated). `dataplane.buildSnippetsForContext` emits the main/http snippets of the filters with
+`Valid && Referenced`. -/
+
+/-- `process{HTTP,GRPC}RouteRules` is reached for this route -/
+def rulesProcessed (gws : List NN) (r : Route) : Bool :=
+  decide (r.kind ≠ .tls) && resolvesSome gws r && (sectionRefs r.nn.ns gws r.parents 0 []).isSome && r.rulesReached
+
+/-- building route `r` sets `Referenced` on the SnippetsFilter `sf` (looked up in the ROUTE's namespace) -/
+def marksSnippet (gws : List NN) (r : Route) (sf : NN) : Bool :=
+  rulesProcessed gws r && decide (r.nn.ns = sf.ns) && r.sfRefs.contains sf.name
+
+/-- the SnippetsFilters whose `Referenced` flag is set when `buildRoutesForGateways` returns -/
+def referencedSnippets (gws : List NN) (routes : List Route) (sfs : List NN) : List NN :=
+  sfs.filter (fun sf => routes.any (fun r => marksSnippet gws r sf))
+
+/-- REFUTED VARIANT (order of checks, seeded change C17-r3m1): the rules are processed — and the resolver
+called — before the route is checked for a parentRef to one of our Gateways. -/
+def marksSnippetEarly (r : Route) (sf : NN) : Bool :=
+  decide (r.kind ≠ .tls) && decide (r.nn.ns = sf.ns) && r.sfRefs.contains sf.name
+
+def referencedSnippetsEarly (gws : List NN) (routes : List Route) (sfs : List NN) : List NN :=
+  if gws.isEmpty then [] else sfs.filter (fun sf => routes.any (fun r => marksSnippetEarly r sf))
+
 /-! ### policies -/
 
 /-- `gatewayExists` -/
@@ -283,10 +324,11 @@ structure Core where
   refSvcs : List NN
   btps : List NN
   snippets : List NN
+  refSnippets : List NN    -- SnippetsFilters with `Referenced == true`
   deriving DecidableEq, Repr
 
 /-- `&Graph{}` -/
-def Core.empty : Core := ⟨none, [], none, [], [], [], [], [], []⟩
+def Core.empty : Core := ⟨none, [], none, [], [], [], [], [], [], []⟩
 
 /-- the early-return condition of `BuildGraph`: `gcExists && processedGwClasses.Winner == nil` -/
 def disabled (cfg : Cfg) (s : State) : Bool :=
@@ -308,7 +350,8 @@ def buildGraph (cfg : Cfg) (s : State) : Core :=
       policies := processPolicies s.policies pg routes svcs
       refSvcs := svcs
       btps := (btpCandidates pg.winner routes s.btps).map (·.nn)
-      snippets := s.snippets }
+      snippets := s.snippets
+      refSnippets := referencedSnippets (allNsNames pg) s.routes s.snippets }
 
 /-! ### status requests (`Prepare*Requests`) -/
 
